@@ -18,6 +18,7 @@ EXPLANATION = (
     "of flow_attr; (R3) cache typestate: no cached solution survives the lowering of the solved flag / re-creation of the solver; (R4) the constructor never writes to the caller's ignore list or its shared default.  NOT "
     "decided: optimality; the (1+eps) guarantee as a numeric statement."
     " (R7) few-values variant: the number of value slots is counted on the first solution over the slot edges (not on the published graph), the published error is recomputed from the corrected values of the non-ignored edges (not read from error variables), and solve() re-installs the minimum-error model when the few-values model is installed; (R8) the numpy-scalar bound w_max*|E| reaches the variables (C12.R7). "
+    ' (R7, round 3) the variable bound and the recomputed error are computed on Python numbers; scaling factors are float()-converted.'
 )
 DECIDED = ["formulation (conservation, absolute deviation, non-negativity, objective, epsilon budget)", "corrected graph is a copy with only flow values changed",
            "no stale cached solution"]
